@@ -11,6 +11,7 @@
      ega     planar: 8 pixels per byte, leftmost in bit 7; the byte read is
              bit `plane` of the 8 attributes; a byte written sets, in every
              plane of the write mask, that plane's bit of the 8 attributes
+             (L.planes = the planes that exist, as a bit mask)
      tandy6  4 banks like cga, 8 pixels per PAIR of bytes: the even byte holds
              bit 0 of the 8 attributes, the odd byte bit 1
    Content is kept as rows: for text modes rows of cells <<char, attr>>, for
@@ -33,11 +34,12 @@ Bit(v, k) == (v \div Pow2(k)) % 2
 
 \* hardware layouts
 Text(seg, tw, pageSize) == [kind |-> "text", seg |-> seg, w |-> tw, h |-> 25, pageSize |-> pageSize,
-                            banks |-> 1, bankSize |-> pageSize, bpr |-> 2 * tw, bpp |-> 8]
+                            banks |-> 1, bankSize |-> pageSize, bpr |-> 2 * tw, bpp |-> 8, planes |-> 0]
 Cga(w, h, bpp, banks)   == [kind |-> "cga", seg |-> 47104, w |-> w, h |-> h, pageSize |-> banks * 8192,
-                            banks |-> banks, bankSize |-> 8192, bpr |-> (w * bpp) \div 8, bpp |-> bpp]
-Ega(w, h, pageSize)     == [kind |-> "ega", seg |-> 40960, w |-> w, h |-> h, pageSize |-> pageSize,
-                            banks |-> 1, bankSize |-> pageSize, bpr |-> w \div 8, bpp |-> 1]
+                            banks |-> banks, bankSize |-> 8192, bpr |-> (w * bpp) \div 8, bpp |-> bpp, planes |-> 0]
+Ega(w, h, pageSize, planes) ==
+                           [kind |-> "ega", seg |-> 40960, w |-> w, h |-> h, pageSize |-> pageSize,
+                            banks |-> 1, bankSize |-> pageSize, bpr |-> w \div 8, bpp |-> 1, planes |-> planes]
 Layout(name) ==
     CASE name \in {"cgatext80", "egatext80", "vgatext80", "tandytext80", "olivettitext80"} -> Text(47104, 80, 4096)
       [] name \in {"cgatext40", "egatext40", "vgatext40", "tandytext40", "olivettitext40"} -> Text(47104, 40, 2048)
@@ -50,9 +52,10 @@ Layout(name) ==
       [] name = "640x400x2"      -> Cga(640, 400, 1, 4)
       [] name = "720x348x2"      -> Cga(720, 348, 1, 4)
       [] name = "640x200x4"      -> [Cga(640, 200, 2, 4) EXCEPT !.kind = "tandy6"]
-      [] name = "320x200x16"     -> Ega(320, 200, 8192)
-      [] name = "640x200x16"     -> Ega(640, 200, 16384)
-      [] name \in {"640x350x16", "640x350x4c", "640x350x4"} -> Ega(640, 350, 32768)
+      [] name = "320x200x16"     -> Ega(320, 200, 8192, 15)
+      [] name = "640x200x16"     -> Ega(640, 200, 16384, 15)
+      [] name \in {"640x350x16", "640x350x4c"} -> Ega(640, 350, 32768, 15)
+      [] name = "640x350x4"      -> Ega(640, 350, 32768, 10)      \* monochrome EGA: two of the four planes exist
 
 -----------------------------------------------------------------------------
 (* the address map *)
@@ -74,8 +77,10 @@ Addr(L, page, y, x, sub) ==
       [] L.kind = "cga"    -> page * L.pageSize + (y % L.banks) * L.bankSize + (y \div L.banks) * L.bpr + (x * L.bpp) \div 8
       [] L.kind = "ega"    -> page * L.pageSize + y * L.bpr + x \div 8
       [] L.kind = "tandy6" -> page * L.pageSize + (y % L.banks) * L.bankSize + (y \div L.banks) * L.bpr + 2 * (x \div 8) + sub
+\* (the PC memory map gives video memory the window A0000..BFFFF; pages that would lie behind it are not addressable)
 Backs(L, np, rel) ==
     /\ rel >= 0
+    /\ L.seg * 16 + rel < 786432
     /\ LET c == Coords(L, rel) IN c.page < np /\ c.y < L.h /\ c.x + c.n <= L.w
 
 -----------------------------------------------------------------------------
@@ -111,5 +116,6 @@ PokePix(L, c, old, v, k, mask) ==
 PokeRow(L, c, row, v, mask) ==
     IF L.kind = "text"
     THEN [row EXCEPT ![c.x + 1] = IF c.sub = 0 THEN <<v, @[2]>> ELSE <<@[1], v>>]
-    ELSE [i \in 1..Len(row) |-> IF i > c.x /\ i <= c.x + c.n THEN PokePix(L, c, row[i], v, i - 1 - c.x, mask) ELSE row[i]]
+    ELSE SubSeq(row, 1, c.x) \o [k \in 1..c.n |-> PokePix(L, c, row[c.x + k], v, k - 1, mask)]
+         \o SubSeq(row, c.x + c.n + 1, Len(row))
 =============================================================================
